@@ -20,9 +20,9 @@ ASSUMPTIONS = ["user names contain no ':' or '@'; passwords no '/', '?', '#' (no
 
 SCHEMES = ["http", "https", "ws", "wss"]
 DEFAULT = {"http": 80, "https": 443, "ws": 80, "wss": 443}
-SERVERS = [("h", "default"), ("h", 8080), ("h", 80), ("h", 443), ("10.0.0.1", 80), ("::1", 8000),
+SERVERS = [("h", "default"), ("h", 8080), ("h", 80), ("h", 443), ("10.0.0.1", 80), ("::1", 8000), ("h", 65535), ("h", 1),
            ("::ffff:192.0.2.1", 8000), ("64:ff9b::198.51.100.7", "default"), ("2001:db8:0:0:0:0:0:1", 8000), ("FE80::A", 8000)]  # IPv6 with a dotted IPv4 tail, in full form, in capitals
-HOSTS = [None, "x.org", "x.org:81", "[::1]:81"]
+HOSTS = [None, "x.org", "x.org:81", "[::1]:81", "x.org:65535", "[::1]:65535"]
 ROOTS = ["", "/r", "/ré"]
 PATHS = ["/", "/a b", "/é", "/a?b", "/a#b", "", "/a/b.c", "/r/users", "/r", "/ré/x", "//a/b", "//", "///a", "/a//b/"]
 QUERIES = [b"", b"a=1", b"a=%20&b", "name=café&q=日本".encode("utf-8"), b"l=\xe9"]  # the last two: raw UTF-8 and a raw Latin-1 byte, unescaped
@@ -43,6 +43,8 @@ def reconstruct(r, scheme, server, host, root, path, query):
     sname, sport = server
     port = DEFAULT[scheme] if sport == "default" else sport
     headers = [("Host", host)] if host is not None else []
+    if (len(path) + len(root)) % 2:
+        headers = [("User-Agent", "probe/1.0"), ("Accept", "*/*")] + headers + [("X-Forwarded-Host", "other.example")]  # Host is not always the first field line
     req = SV.AReq(path=path, root=root, query=query, headers=headers, scheme=scheme, server=(sname, port))
     urls = {}
     w = {"kind": "reconstruct", "scheme": scheme, "server": [sname, port], "host": host, "root": root, "path": path, "query": query}
@@ -53,6 +55,12 @@ def reconstruct(r, scheme, server, host, root, path, query):
         if scheme in ("ws", "wss"):
             sc["type"] = "websocket"
         urls["asgi"] = URL(scope=sc)
+        # ... and as the request objects hand it out
+        from baize.asgi import HTTPConnection as AConn
+        from baize.wsgi import HTTPConnection as WConn
+        if scheme in ("http", "https"):
+            urls["wsgi-request"] = WConn(SV.to_environ(req)).url
+        urls["asgi-request"] = AConn(dict(sc)).url
     except Exception as e:  # noqa
         r.count("evaluations")
         r.violation(f"reconstruct:exception:{type(e).__name__}", w, f"URL from {w} raised {e!r:.120}")
@@ -84,7 +92,7 @@ def reconstruct(r, scheme, server, host, root, path, query):
             else:
                 sig = "reconstruct:" + ",".join(diff)
             r.violation(sig, dict(w, iface=iface), f"{iface} URL {str(u)!r} from scheme={scheme} server={(sname, port)} Host={host!r} root={root!r} path={path!r} query={query!r}: {({k: got[k] for k in diff})} expected {({k: want[k] for k in diff})}")
-    if len(urls) == 2 and str(urls["wsgi"]) != str(urls["asgi"]):
+    if "wsgi" in urls and str(urls["wsgi"]) != str(urls["asgi"]):
         r.violation("reconstruct:wsgi-asgi-differ", w, f"WSGI {str(urls['wsgi'])!r} vs ASGI {str(urls['asgi'])!r}")
 
 
